@@ -11,6 +11,7 @@ both build profiles.
 import CamVerif.Proofs.C05Eval
 import CamVerif.Proofs.C05Parse
 import CamVerif.Proofs.C05Spell
+import CamVerif.Proofs.C05Lex
 import CamVerif.Gen.FormulaTables
 namespace CamVerif.C05
 open CamVerif CamVerif.Formula CamVerif.Formula.Proofs
@@ -210,7 +211,9 @@ example : parseToks (F := F) [.sym .plus, .sym .minus, .sym .lparen, .sym .lpare
       (.paren _ _ _ (by decide) (.func 0 "NEG" .neg _ _ (by decide) (by decide) (.pi 0 (by decide))))
       (.int _ 2 (by decide))))))
 
-/-! ### characters → tokens (not proved in general: tied by the differential) -/
+/-! ### characters → tokens (earlier formulation; the character level is now proved in section 9:
+`lex_printChars`, `parse_print_chars`, `parse_spelling_chars`, for the canonical spelling `Spec.printChars`
+with a decimal printer defined in the Spec instead of `toString`) -/
 
 /-- Spelling of a token list with single blanks (numbers in decimal).  Float tokens have no
 canonical text and are outside this statement. -/
@@ -237,9 +240,11 @@ def Lexable : Expr F → Prop
   | .float _ => False
   | .ident s => ∃ c cs, s.toList = c :: cs ∧ isAlpha c = true ∧ cs.all isIdentCont = true
 
-/-- Full-strength statement at the character level (kept as a checked definition; proved here
-only below the lexer, `parse_print`; the lexer is tied to the code by the differential over
-whitespace / entity / literal-form variants). -/
+/-- Earlier formulation of the character-level statement with `toString` as the decimal printer
+and single blanks (kept as a checked definition).  Its content is proved as `parse_print_chars`
+(section 9) for `Spec.printChars`, which is more general: any XML-escape choice, any
+white-space gaps.  Still outside every theorem: float literal text, hexadecimal literal text,
+tokens written without white space between them (differential only). -/
 def C05_parse_print_string_statement : Prop :=
   ∀ (e : Expr F), Spec.LegalIdents e → Lexable e → parseChars (spell (Spec.printMin e)) = .ok e
 
@@ -490,5 +495,266 @@ theorem self_reference_is_error (p : Profile) (env : EnvX F) (vis : List String)
 example : evalX (F := F) .dev (fun s => if s = "A" then some (.binOp .add (.ident "A") (.int 1)) else none)
     5 (.ident "A") = .err .invalidNode := by
   simp [evalX, evalXV]
+
+/-! ## 7. Environments of sub-expressions: the value is the reference value of the expansion -/
+
+private theorem opt_bind_some {α β : Type} {x : Option α} {f : α → Option β} {b : β}
+    (h : (x >>= f) = some b) : ∃ a, x = some a ∧ f a = some b := by
+  cases x with
+  | none => simp at h
+  | some a => exact ⟨a, rfl, by simpa using h⟩
+
+private theorem evalX_refines (p : Profile) (env : EnvX F) (fuel : Nat) :
+    ∀ (vis : List String) (e e' : Expr F), Spec.expand env vis fuel e = some e' →
+      toSRes (evalXV p env vis fuel e) = some (Spec.eval (fun _ => none) e') := by
+  induction fuel with
+  | zero =>
+    intro vis e
+    induction e with
+    | int i => intro e' h; simp only [Spec.expand, Option.some.injEq] at h; subst h; simp [evalXV, Spec.eval]; rfl
+    | float f => intro e' h; simp only [Spec.expand, Option.some.injEq] at h; subst h; simp [evalXV, Spec.eval]; rfl
+    | ident s =>
+      intro e' h
+      simp only [Spec.expand] at h
+      split at h
+      · simp at h
+      · next hv =>
+        split at h
+        · next hn =>
+          simp only [Option.some.injEq] at h; subst h
+          simp [evalXV, hv, hn, Spec.eval]; rfl
+        · simp at h
+    | unOp k x ih =>
+      intro e' h
+      simp only [Spec.expand] at h
+      obtain ⟨x', hx, h⟩ := opt_bind_some h
+      simp only [pure, Option.some.injEq] at h; subst h
+      simp only [evalXV, Spec.eval]
+      exact toSRes_bind (ih x' hx) (fun v => by simp [evalUn_ok]; rfl)
+    | ite c t e ihc iht ihe =>
+      intro e' h
+      simp only [Spec.expand] at h
+      obtain ⟨c', hc, h⟩ := opt_bind_some h
+      obtain ⟨t', ht, h⟩ := opt_bind_some h
+      obtain ⟨e2, he, h⟩ := opt_bind_some h
+      simp only [pure, Option.some.injEq] at h; subst h
+      simp only [evalXV, Spec.eval]
+      refine toSRes_bind (ihc c' hc) (fun v => ?_)
+      rw [toSVal_truthy]
+      split
+      · exact iht t' ht
+      · exact ihe e2 he
+    | binOp k l r ihl ihr =>
+      intro e' h
+      simp only [Spec.expand] at h
+      obtain ⟨l', hl, h⟩ := opt_bind_some h
+      obtain ⟨r', hr, h⟩ := opt_bind_some h
+      simp only [pure, Option.some.injEq] at h; subst h
+      have il := ihl l' hl
+      have ir := ihr r' hr
+      cases k
+      case and =>
+        simp only [evalXV, Spec.eval]
+        refine toSRes_bind il (fun a => ?_)
+        rw [toSVal_truthy]
+        split
+        · exact toSRes_bind ir (fun b => by simp; rfl)
+        · simp; rfl
+      case or =>
+        simp only [evalXV, Spec.eval]
+        refine toSRes_bind il (fun a => ?_)
+        rw [toSVal_truthy]
+        split
+        · simp; rfl
+        · exact toSRes_bind ir (fun b => by simp; rfl)
+      all_goals
+        simp only [evalXV, Spec.eval]
+        exact toSRes_bind il (fun a => toSRes_bind ir (fun b => evalBinStrict_ok _ (by decide) (by decide) a b))
+  | succ fuel ihf =>
+    intro vis e
+    induction e with
+    | int i => intro e' h; simp only [Spec.expand, Option.some.injEq] at h; subst h; simp [evalXV, Spec.eval]; rfl
+    | float f => intro e' h; simp only [Spec.expand, Option.some.injEq] at h; subst h; simp [evalXV, Spec.eval]; rfl
+    | ident s =>
+      intro e' h
+      simp only [Spec.expand] at h
+      split at h
+      · simp at h
+      · next hv =>
+        split at h
+        · next hn =>
+          simp only [Option.some.injEq] at h; subst h
+          simp [evalXV, hv, hn, Spec.eval]; rfl
+        · next b hb =>
+          simp only [evalXV, hv, hb]
+          simpa using ihf (s :: vis) b e' h
+    | unOp k x ih =>
+      intro e' h
+      simp only [Spec.expand] at h
+      obtain ⟨x', hx, h⟩ := opt_bind_some h
+      simp only [pure, Option.some.injEq] at h; subst h
+      simp only [evalXV, Spec.eval]
+      exact toSRes_bind (ih x' hx) (fun v => by simp [evalUn_ok]; rfl)
+    | ite c t e ihc iht ihe =>
+      intro e' h
+      simp only [Spec.expand] at h
+      obtain ⟨c', hc, h⟩ := opt_bind_some h
+      obtain ⟨t', ht, h⟩ := opt_bind_some h
+      obtain ⟨e2, he, h⟩ := opt_bind_some h
+      simp only [pure, Option.some.injEq] at h; subst h
+      simp only [evalXV, Spec.eval]
+      refine toSRes_bind (ihc c' hc) (fun v => ?_)
+      rw [toSVal_truthy]
+      split
+      · exact iht t' ht
+      · exact ihe e2 he
+    | binOp k l r ihl ihr =>
+      intro e' h
+      simp only [Spec.expand] at h
+      obtain ⟨l', hl, h⟩ := opt_bind_some h
+      obtain ⟨r', hr, h⟩ := opt_bind_some h
+      simp only [pure, Option.some.injEq] at h; subst h
+      have il := ihl l' hl
+      have ir := ihr r' hr
+      cases k
+      case and =>
+        simp only [evalXV, Spec.eval]
+        refine toSRes_bind il (fun a => ?_)
+        rw [toSVal_truthy]
+        split
+        · exact toSRes_bind ir (fun b => by simp; rfl)
+        · simp; rfl
+      case or =>
+        simp only [evalXV, Spec.eval]
+        refine toSRes_bind il (fun a => ?_)
+        rw [toSVal_truthy]
+        split
+        · simp; rfl
+        · exact toSRes_bind ir (fun b => by simp; rfl)
+      all_goals
+        simp only [evalXV, Spec.eval]
+        exact toSRes_bind il (fun a => toSRes_bind ir (fun b => evalBinStrict_ok _ (by decide) (by decide) a b))
+
+/-- **evalX_refines_reference**: for an environment of sub-expressions (`<Expression>`
+bindings, dynamic scope) the model of `Expr::eval_in` computes exactly the reference value of
+the formula in which every bound name is replaced by its recursively expanded expression
+(`Spec.expand`; names that are not bound stay unknown identifiers) — whenever that expansion
+exists, i.e. the bindings reachable from the formula are acyclic.  Both build profiles, every
+float implementation, any set of names already being expanded. -/
+theorem evalX_refines_reference (p : Profile) (env : EnvX F) (vis : List String) (fuel : Nat)
+    (e e' : Expr F) (h : Spec.expand env vis fuel e = some e') :
+    toSRes (evalXV p env vis fuel e) = some (Spec.eval (fun _ => none) e') :=
+  evalX_refines p env fuel vis e e' h
+
+/-- **evalX_acyclic_refines_reference**: the same for an environment given as a list of bindings
+and the public entry point, with acyclicity as the decidable predicate `Spec.acyclicFor`. -/
+theorem evalX_acyclic_refines_reference (p : Profile) (bs : List (String × Expr F)) (e : Expr F)
+    (h : Spec.acyclicFor bs e = true) :
+    ∃ e', Spec.expand (Spec.envOfList bs) [] (bs.length + 1) e = some e' ∧
+      toSRes (evalX p (Spec.envOfList bs) (bs.length + 1) e) = some (Spec.eval (fun _ => none) e') := by
+  unfold Spec.acyclicFor at h
+  cases hx : Spec.expand (Spec.envOfList bs) [] (bs.length + 1) e with
+  | none => rw [hx] at h; simp at h
+  | some e' => exact ⟨e', rfl, evalX_refines_reference p _ [] _ e e' hx⟩
+
+/- `A = B + 1`, `B = 2 * X` (X unbound): acyclic, `A * 3` expands to `(2 * X + 1) * 3`;
+`A = A + 1` is not acyclic. -/
+example : Spec.acyclicFor (F := F)
+    [("A", .binOp .add (.ident "B") (.int 1)), ("B", .binOp .mul (.int 2) (.ident "X"))]
+    (.binOp .mul (.ident "A") (.int 3)) = true ∧
+    Spec.expand (F := F) (Spec.envOfList
+      [("A", .binOp .add (.ident "B") (.int 1)), ("B", .binOp .mul (.int 2) (.ident "X"))]) [] 3
+      (.binOp .mul (.ident "A") (.int 3)) =
+      some (.binOp .mul (.binOp .add (.binOp .mul (.int 2) (.ident "X")) (.int 1)) (.int 3)) ∧
+    Spec.acyclicFor (F := F) [("A", .binOp .add (.ident "A") (.int 1))] (.ident "A") = false := by
+  simp [Spec.acyclicFor, Spec.expand, Spec.envOfList]
+
+/-! ## 8. Build profiles -/
+
+/-- **evalX_profile_independent**: over any environment of sub-expressions the dev build
+(overflow checks on) and the release build compute the same outcome. -/
+theorem evalX_profile_independent (env : EnvX F) (fuel : Nat) :
+    ∀ (vis : List String) (e : Expr F), evalXV .dev env vis fuel e = evalXV .release env vis fuel e := by
+  induction fuel with
+  | zero =>
+    intro vis e
+    induction e with
+    | binOp k l r ihl ihr => cases k <;> simp only [evalXV, ihl, ihr]
+    | unOp k e ih => simp only [evalXV, ih]
+    | ite c t e ihc iht ihe => simp only [evalXV, ihc, iht, ihe]
+    | int i => simp [evalXV]
+    | float f => simp [evalXV]
+    | ident s => simp only [evalXV]
+  | succ fuel ihf =>
+    intro vis e
+    induction e with
+    | binOp k l r ihl ihr => cases k <;> simp only [evalXV, ihl, ihr]
+    | unOp k e ih => simp only [evalXV, ih]
+    | ite c t e ihc iht ihe => simp only [evalXV, ihc, iht, ihe]
+    | int i => simp [evalXV]
+    | float f => simp [evalXV]
+    | ident s => simp only [evalXV, ihf]
+
+/-- **integer_results_profile_independent**: an integer result never depends on the build
+profile: the dev build yields the integer `i` iff the release build does (no integer
+operation of the evaluator has a checked-overflow variant left). -/
+theorem integer_results_profile_independent (env : Env F) (e : Expr F) (i : BitVec 64) :
+    eval .dev env e = .ok (.int i) ↔ eval .release env e = .ok (.int i) := by
+  rw [eval_profile_independent]
+
+example : eval (F := F) .dev (fun _ => none) (.binOp .mul (.int 6) (.int 7)) = .ok (.int 42) ∧
+    eval (F := F) .release (fun _ => none) (.binOp .mul (.int 6) (.int 7)) = .ok (.int 42) := by
+  constructor <;> rfl
+
+/-! ## 9. Character level: lexer and parser on the canonical spelling -/
+
+/-- **lex_printChars**: the lexer reads the canonical spelling of a token list — operators with
+any choice of XML escapes (`&amp;` `&lt;` `&gt;`, per character occurrence), identifiers,
+decimal integers, a non-empty gap of arbitrary white space (blank, tab, CR, LF, other ASCII
+control characters) after every token and optionally before the first — back as exactly that
+token list.  For every token list, every escape choice, every gap. -/
+theorem lex_printChars (lead : List Char) (ps : List (Spec.Piece F))
+    (hl : lead.all isSpace = true) (h : ∀ p ∈ ps, Spec.Spellable p.tok ∧ Spec.GoodGap p.gap) :
+    (lex (Spec.printChars lead ps) : List (Tok F)) = ps.map (·.tok) :=
+  lex_printChars_aux lead ps hl h
+
+/-- **parse_print_chars**: `parse_print` at the character level: `formula::parse` (non-ASCII
+check, lexer, parser, end-of-input assertion) on ANY canonical spelling of the
+minimal-parenthesis print of a tree returns that tree. -/
+theorem parse_print_chars (e : Expr F) (he : Spec.LegalIdents e) (lead : List Char)
+    (ps : List (Spec.Piece F)) (hps : ps.map (·.tok) = Spec.printMin e)
+    (hl : lead.all isSpace = true) (h : ∀ p ∈ ps, Spec.Spellable p.tok ∧ Spec.GoodGap p.gap) :
+    parseChars (Spec.printChars lead ps) = .ok e := by
+  rw [parseChars_printChars lead ps hl h, hps]
+  exact parse_print e he
+
+/-- **parse_spelling_chars**: the same for every token spelling of the tree (`Spec.Spells`:
+redundant parentheses, `NEG(x)`, unary plus, `PI`, `E`). -/
+theorem parse_spelling_chars (e : Expr F) (lead : List Char) (ps : List (Spec.Piece F))
+    (hps : Spec.Spells 0 e (ps.map (·.tok)))
+    (hl : lead.all isSpace = true) (h : ∀ p ∈ ps, Spec.Spellable p.tok ∧ Spec.GoodGap p.gap) :
+    parseChars (Spec.printChars lead ps) = .ok e := by
+  rw [parseChars_printChars lead ps hl h]
+  exact parse_spelling e _ hps
+
+/- `a << 2` spelled ` a &lt;&lt;\t2\n` (leading blank, both `<` escaped, tab and newline as gaps). -/
+example : parseChars (F := F)
+    [' ', 'a', ' ', '&', 'l', 't', ';', '&', 'l', 't', ';', '\t', '2', '\n'] =
+    .ok (.binOp .shl (.ident "a") (.int 2)) := by
+  have hp : Spec.printChars (F := F) [' ']
+      [⟨.ident "a", fun _ => false, [' ']⟩, ⟨.sym .shl, fun _ => true, ['\t']⟩, ⟨.int 2, fun _ => false, ['\n']⟩] =
+      [' ', 'a', ' ', '&', 'l', 't', ';', '&', 'l', 't', ';', '\t', '2', '\n'] := by
+    simp [Spec.printChars, Spec.tokChars, Spec.escape, Spec.escChar, Spec.symChars, Spec.decDigits, Spec.decRev,
+      Spec.digitChar]
+  rw [← hp]
+  apply parse_print_chars (.binOp .shl (.ident "a") (.int 2)) (by simp [Spec.LegalIdents])
+  · rfl
+  · decide
+  · intro p hp
+    simp only [List.mem_cons, List.not_mem_nil, or_false] at hp
+    rcases hp with rfl | rfl | rfl
+    · exact ⟨⟨'a', [], rfl, by decide, by decide⟩, by simp, by simp [isSpace]⟩
+    · exact ⟨trivial, by simp, by simp [isSpace]⟩
+    · exact ⟨by simp [Spec.Spellable, I64_MAX], by simp, by simp [isSpace]⟩
 
 end CamVerif.C05
